@@ -1,6 +1,7 @@
 package main
 
 import (
+	"os"
 	"fmt"
 	"go/token"
 
@@ -288,7 +289,7 @@ func runC05(c *Ctx) {
 		stop := false
 		for _, f := range g.AllEdgeFacts() {
 			if isNilFact(f, token.NEQ, isErr) {
-				r := g.Reach([]int{g.Succ[f.Edge.From][f.Edge.K]}, nil, nil)
+				r := g.ReachAssuming(f.Edge, nil)
 				stop = !r[mn]
 			}
 		}
@@ -311,59 +312,81 @@ func runC05(c *Ctx) {
 	} else {
 		cn := cmaps[0]
 		a := gs.callArgs(cn)
-		// page = fdiv12(phi), frame = fdiv12(translate(phi)#0), flags = Present|RW
-		pp := z.Of(a[1]).String()
-		fp := z.Of(a[2]).String()
+		// In iteration T the loop maps page fdiv12(A) to frame fdiv12(translate(A))
+		// with Present|RW, for the address A = earlyReserveLastUsed + 4096*T, while
+		// A < tempMappingAddr.
 		fl, okf := constUint64(a[3])
-		var cur *ssa.Phi
-		for _, in := range gs.Ins {
-			if phi, ok := in.(*ssa.Phi); ok && "fdiv12("+z.defaultAtom(phi)+")" == pp {
-				cur = phi
+		var tc *ssa.Call
+		fv := stripConv(a[2])
+		if sh, ok := fv.(*ssa.BinOp); ok {
+			k, okk := constUint64(sh.Y)
+			if sh.Op == token.SHR && okk && k == 12 || sh.Op == token.QUO && okk && k == pageSize {
+				if call, ok := m.resultOf(sh.X, translate, 0); ok {
+					tc = call
+				}
 			}
 		}
+		lf, inLoop := gs.loopFormAt(z, gs.Ins[cn].Block())
 		switch {
-		case cur == nil:
-			bad = "the page mapped is not the page of the loop address (" + pp + ")"
 		case !okf || fl != fPresent|fRW:
 			bad = "reserved pages are not re-mapped with Present|RW"
+		case tc == nil:
+			bad = "the frame is not fdiv(translate(a), 4096) (" + z.Of(a[2]).String() + ")"
+		case !inLoop:
+			bad = "the reservation copy is not a loop"
 		default:
-			// frame derives from translate(cur)
-			okFrame := false
-			if sh, ok := stripConv(a[2]).(*ssa.BinOp); ok && sh.Op == token.SHR {
-				if k, ok := constUint64(sh.Y); ok && k == 12 {
-					if call, ok := m.resultOf(sh.X, translate, 0); ok && call.Common().Args[0] == ssa.Value(cur) {
-						okFrame = true
-						// translate error returned
-						tErr := hasFact(gs.FactsAt(cn), func(f Fact) bool {
-							return isNilFact(f, token.EQL, func(v ssa.Value) bool { cc, ok := m.resultOf(v, translate, 1); return ok && cc == call })
-						})
-						if !tErr {
-							bad = "the translation error is not checked before the page is mapped"
+			addr := tc.Common().Args[0]
+			first, step, okA := lf.affineInT(addr)
+			pageP := z.Of(a[1])
+			addrP := z.Of(addr)
+			trips, tripsOK := lf.Trips, lf.TripsOK
+			lf.Done()
+			var lastUsedP Poly
+			for _, in := range gs.Ins {
+				if v, ok := in.(ssa.Value); ok && isLoadOfGlobal(v, lastUsed) {
+					lastUsedP = z.Of(v)
+				}
+			}
+			stepK, stepIsK := step.isConst()
+			switch {
+			case !pageP.equal(pFdiv(12, addrP)):
+				bad = "the page mapped is not the page of the address that is translated (" + pageP.String() + ")"
+			case !okA || !stepIsK || uint64(stepK) != pageSize || lastUsedP == nil || !first.equal(lastUsedP):
+				bad = "the copy loop does not start at earlyReserveLastUsed and advance by PageSize"
+			case !tripsOK || !trips.equal(pCdiv(12, polyConst(int64(tempAddr)).add(lastUsedP, -1))):
+				bad = "the copy loop does not run while the address is below tempMappingAddr"
+			}
+			// translate error checked before the page is mapped
+			if bad == "" {
+				tErr := hasFact(gs.FactsAt(cn), func(f Fact) bool {
+					return isNilFact(f, token.EQL, func(v ssa.Value) bool { cc, ok := m.resultOf(v, translate, 1); return ok && cc == tc })
+				})
+				if !tErr {
+					bad = "the translation error is not checked before the page is mapped"
+				}
+			}
+			returnsOne := func(r []bool, is func(ssa.Value) bool) bool {
+				found := false
+				for k, in := range gs.Ins {
+					rt, ok := in.(*ssa.Return)
+					if !ok || !r[k] || rt.Parent() != setup {
+						continue
+					}
+					okOne := false
+					if os.Getenv("FFC_DBG") != "" {
+						fmt.Fprintf(os.Stderr, "DBG ret %s val %s cases %d\n", gs.posOf(k), rt.Results[0], len(gs.valueCases(rt.Results[0], k)))
+					}
+					for _, vc := range gs.valueCases(rt.Results[0], k) {
+						if is(vc.Val) {
+							okOne = true
 						}
 					}
-				}
-			}
-			if !okFrame && bad == "" {
-				bad = "the frame is not fdiv(translate(a), 4096) for the same address a (" + fp + ")"
-			}
-			// loop: init = load earlyReserveLastUsed, step PageSize, bound < tempMappingAddr
-			init, step := false, false
-			for _, e := range cur.Edges {
-				if isLoadOfGlobal(e, lastUsed) {
-					init = true
-				} else if b, ok := e.(*ssa.BinOp); ok && b.Op == token.ADD && b.X == ssa.Value(cur) {
-					if k, ok := constUint64(b.Y); ok && k == pageSize {
-						step = true
+					if !okOne {
+						return false
 					}
-				} else if bad == "" {
-					bad = "unexpected start of the reservation copy loop: " + describe(e)
+					found = true
 				}
-			}
-			bound := hasFact(gs.FactsAt(cn), func(f Fact) bool {
-				return cmpMatch(f, token.LSS, func(v ssa.Value) bool { return v == ssa.Value(cur) }, func(v ssa.Value) bool { k, ok := constUint64(v); return ok && k == tempAddr })
-			})
-			if bad == "" && (!init || !step || !bound) {
-				bad = "the copy loop is not `for a := earlyReserveLastUsed; a < tempMappingAddr; a += PageSize`"
+				return found
 			}
 			// map error returned
 			if bad == "" {
@@ -371,11 +394,9 @@ func runC05(c *Ctx) {
 				okRet := false
 				for _, f := range gs.AllEdgeFacts() {
 					if isNilFact(f, token.NEQ, func(v ssa.Value) bool { return v == ssa.Value(call) }) {
-						r := gs.Reach([]int{gs.Succ[f.Edge.From][f.Edge.K]}, nil, nil)
-						for k, in := range gs.Ins {
-							if rt, ok := in.(*ssa.Return); ok && r[k] && rt.Results[0] == ssa.Value(call) {
-								okRet = true
-							}
+						r := gs.ReachAssuming(f.Edge, nil)
+						if returnsOne(r, func(v ssa.Value) bool { return v == ssa.Value(call) }) {
+							okRet = true
 						}
 					}
 				}
@@ -383,17 +404,13 @@ func runC05(c *Ctx) {
 					bad = "a failing Map in the copy loop is not returned"
 				}
 			}
-			// the loop exit (not < temp) leads to Activate; translate failure returns its error
+			// translate failure returns its error and maps nothing further
 			if bad == "" {
 				for _, f := range gs.AllEdgeFacts() {
 					if isNilFact(f, token.NEQ, func(v ssa.Value) bool { _, ok := m.resultOf(v, translate, 1); return ok }) {
-						r := gs.Reach([]int{gs.Succ[f.Edge.From][f.Edge.K]}, nil, nil)
-						for k, in := range gs.Ins {
-							if rt, ok := in.(*ssa.Return); ok && r[k] {
-								if _, ok := m.resultOf(rt.Results[0], translate, 1); !ok {
-									bad = "a translation failure does not return the translation error"
-								}
-							}
+						r := gs.ReachAssuming(f.Edge, nil)
+						if !returnsOne(r, func(v ssa.Value) bool { _, ok := m.resultOf(v, translate, 1); return ok }) {
+							bad = "a translation failure does not return the translation error"
 						}
 						if r[cn] {
 							bad = "mapping continues after a translation failure"
@@ -442,7 +459,7 @@ func runC05(c *Ctx) {
 		for _, f := range gs.AllEdgeFacts() {
 			if isNilFact(f, token.NEQ, isErr) {
 				if ok, _ := gs.MustPassBefore(f.Edge.From, func(n int) bool { return n == inits[0] }); ok {
-					r := gs.Reach([]int{gs.Succ[f.Edge.From][f.Edge.K]}, nil, nil)
+					r := gs.ReachAssuming(f.Edge, nil)
 					okTest = true
 					for _, u := range uses {
 						if r[u] {
